@@ -132,6 +132,11 @@ def r1_forms(ctx, chk, rule="C14.1"):
                        term=K.ROUND(SF(REACH), C(d)), init_ok=K.INIT_GE1, label=("p",), found_text=show(W))
     km = k.kfold(x)
     want_filter = simp(("cmp", "in", ("p",), W))
+    if km is None and x[0] == "attr" and x[2] == EMR and x[1][0] == "idx" and x[1][1] == ("v", k.slist) \
+            and any(t[0] == "idx" and t[2] == C(0) and t[1][0] in ("compr", "attr") for t in C02._sub(x[1][2])):
+        chk.violation(rule, where, "Player 2 slot 1 is the value at the FIRST permitted successor (`%s`): no minimum over the permitted actions is taken" % show(x),
+                      expected="MIN over actions in the worst-reachability set", found=show(x), construct="PlayerTwo slot 1 first successor only")
+        return
     if km is not None and km.kind == "EXT" and km.filter == TRUE and km.source == SELF_NEXT:
         chk.violation(rule, where, "Player 2 slot 1 minimises over ALL successors, not only over its reachability-minimising actions",
                       expected="MIN over actions in the worst-reachability set", found=km.text(), construct="PlayerTwo slot 1 unrestricted")
